@@ -221,6 +221,27 @@ static void family_scanc(std::vector<hm::Scenario>& out, unsigned oracles, bool 
     }
 }
 
+// C15: a reader concurrent with an overwrite sees the complete old or the complete new value (lengths differ by generation)
+static void family_overwrite(std::vector<hm::Scenario>& out, unsigned oracles) {
+    auto shapes = ykc::all_shapes();
+    for (const char* sn : {"B3", "B15", "I2_8_8", "L1one", "L1_3", "L2"}) {
+        const ykc::Shape* sh = ykc::find_shape(shapes, sn);
+        std::vector<std::string> keys = {sh->pal.at("in")};
+        if (sh->pal.count("inL") != 0) keys.push_back(sh->pal.at("inL"));
+        if (sh->pal.count("inLL") != 0) keys.push_back(sh->pal.at("inLL"));
+        for (auto& k : keys) {
+            Op full = mkscan("", scan_endpoint::INF, "", scan_endpoint::INF, 0, false, false);
+            Op cur = full;
+            cur.kind = ISCAN;
+            add(out, "overwrite", *sh, {{mk(GET, k)}, {mk(PUT, k, 2)}}, oracles, true, 2, 3);
+            add(out, "overwrite", *sh, {{full}, {mk(PUT, k, 2)}}, oracles, true, 2, 3);
+            add(out, "overwrite", *sh, {{cur}, {mk(PUT, k, 2)}}, oracles, true, 2, 3);
+            add(out, "overwrite", *sh, {{mk(GET, k), mk(GET, k)}, {mk(PUT, k, 2), mk(PUT, k, 3)}}, oracles, false, 2, 2);
+            add(out, "overwrite", *sh, {{mk(GET, k)}, {mk(PUT, k, 2)}, {mk(PUT, k, 3)}}, oracles, false, 2, 2);
+        }
+    }
+}
+
 // cursor API under concurrent writers (C10, second sentence)
 static void family_iscanc(std::vector<hm::Scenario>& out, unsigned oracles) {
     auto shapes = ykc::all_shapes();
@@ -341,6 +362,7 @@ int main(int argc, char** argv) {
     if (family == "phantom") family_scanc(sc, oracles, true, "phantom");
     if (family == "struct") family_struct(sc, oracles, "struct", false);
     if (family == "ddl") ddl::scenarios(sc);
+    if (family == "overwrite") family_overwrite(sc, oracles);
     if (family == "iscanc") family_iscanc(sc, oracles);
     if (family == "locks") {
         family_struct(sc, oracles, "locks", true);
